@@ -239,18 +239,43 @@ Proof.
     repeat split; try reflexivity; first [left; reflexivity | right; constructor].
 Qed.
 
-(** * the effect of obtain / renew / manage under any plan *)
+(** * the effect of obtain / renew / manage under a plan
+    The walk through the programs is generic in the plan [pl] and in the relation [T] that
+    describes what one [save] under that plan can leave behind ([save_T]): instantiated below with
+    every plan and the seven [torn] states, and with "calm" plans (no crash, no two consecutive
+    failing calls) and the six [torn_safe] states. *)
 (** where the key of the interrupted save comes from: freshly generated (and, with key reuse, only
     because no issuer directory under the name had a key), or — with key reuse — a key that is in storage *)
 Definition key_origin (cfg : config) (sp : subject) (c : core) (k : keyid) : Prop :=
   (k_nkey c <= k /\
    (reuse cfg = true -> forall j, In j (issuers cfg) -> sget (k_st c) (j, s_pre sp, FKey) = None)) \/
   (reuse cfg = true /\ exists j d, In j (issuers cfg) /\ dir_key (k_st c) j d = Some k).
-Definition one_torn (cfg : config) (sp : subject) (c c' : core) : Prop :=
+(** without revocations in the environment no load ever reports one, whatever the plan *)
+Lemma load_managed_rev_none pl cfg d w mc :
+  k_ocsp (w_core w) = [] -> fst (load_managed pl cfg d w) = Ok mc -> m_rev mc = None.
+Proof.
+  intros HO. unfold load_managed. rewrite bind_run. generalize (ro_load_any pl cfg d w).
+  destruct (load_any pl cfg d w) as [[[[[i k] x] m]|e|] w1]; cbn [fst snd]; intros HR; try discriminate.
+  destruct (negb (N.eqb (c_pub x) k)); [cbn; discriminate|].
+  rewrite bind_run. unfold catch, load_ocsp, prim. rewrite HR, HO. cbn [assoc_ser].
+  destruct (p_fail pl (w_cnt w1)); destruct (crash_at pl (w_cnt w1)); cbn; try discriminate;
+    intros [= <-]; reflexivity.
+Qed.
+
+Definition is_op7 (h : hop) : bool := match h with HObtain | HRenew _ | HManage => true | _ => false end.
+Section Gen.
+  Variable pl : plan.
+  Variable T : storage -> nat -> N -> keyid -> cert -> list N -> storage -> Prop.
+  Hypothesis save_T : forall i d k x m w,
+    let c := w_core w in let c' := w_core (snd (save pl i d k x m w)) in
+    k_ocsp c' = k_ocsp c /\ k_locked c' = k_locked c /\ k_nkey c' = k_nkey c /\ k_nser c' = k_nser c /\
+    (k_st c' = k_st c \/ T (k_st c) i d k x m (k_st c')).
+
+Definition one_torn_g (cfg : config) (sp : subject) (c c' : core) : Prop :=
   k_ocsp c' = k_ocsp c /\ k_nkey c <= k_nkey c' /\ k_nser c <= k_nser c' /\
   exists i k x, c_pub x = k /\ c_sub x = s_id sp /\ key_origin cfg sp c k /\
-                torn (k_st c) i (s_save sp) k x [s_id sp] (k_st c').
-Definition eff7 (cfg : config) (sp : subject) (c c' : core) : Prop := keeps c c' \/ one_torn cfg sp c c'.
+                T (k_st c) i (s_save sp) k x [s_id sp] (k_st c').
+Definition eff7_g (cfg : config) (sp : subject) (c c' : core) : Prop := keeps c c' \/ one_torn_g cfg sp c c'.
 
 Lemma key_origin_pre cfg sp c c1 k : keeps c c1 -> key_origin cfg sp c1 k -> key_origin cfg sp c k.
 Proof.
@@ -258,50 +283,50 @@ Proof.
   - left. rewrite <- E. split; [lia | exact H2].
   - right. split; [exact HR|]. exists j, d. rewrite <- E. auto.
 Qed.
-Lemma eff7_pre cfg sp c c1 c2 : keeps c c1 -> eff7 cfg sp c1 c2 -> eff7 cfg sp c c2.
+Lemma eff7_pre_g cfg sp c c1 c2 : keeps c c1 -> eff7_g cfg sp c1 c2 -> eff7_g cfg sp c c2.
 Proof.
   intros HK [H|(A & B & C & i & k & x & Hp & Hs & Ho & Ht)]; [left; eapply keeps_trans; eauto|].
-  right. generalize HK; intros (E & E2 & E3 & E4). unfold one_torn. repeat split; try congruence; try lia.
+  right. generalize HK; intros (E & E2 & E3 & E4). unfold one_torn_g. repeat split; try congruence; try lia.
   exists i, k, x. rewrite <- E. repeat split; auto. eapply key_origin_pre; eauto.
 Qed.
-Lemma eff7_post cfg sp c c1 c2 : eff7 cfg sp c c1 -> keeps c1 c2 -> eff7 cfg sp c c2.
+Lemma eff7_post_g cfg sp c c1 c2 : eff7_g cfg sp c c1 -> keeps c1 c2 -> eff7_g cfg sp c c2.
 Proof.
   intros [H|(A & B & C & i & k & x & Hp & Hs & Ho & Ht)] HK; [left; eapply keeps_trans; eauto|].
-  right. destruct HK as (E & E2 & E3 & E4). unfold one_torn. repeat split; try congruence; try lia.
+  right. destruct HK as (E & E2 & E3 & E4). unfold one_torn_g. repeat split; try congruence; try lia.
   exists i, k, x. rewrite E. auto.
 Qed.
 
-Definition spec7 {A} (cfg : config) (sp : subject) (m : M A) : Prop :=
-  forall w, eff7 cfg sp (w_core w) (w_core (snd (m w))).
-Lemma spec7_pres {A} cfg sp (m : M A) : pres m -> spec7 cfg sp m.
+Definition spec7_g {A} (cfg : config) (sp : subject) (m : M A) : Prop :=
+  forall w, eff7_g cfg sp (w_core w) (w_core (snd (m w))).
+Lemma spec7_pres_g {A} cfg sp (m : M A) : pres m -> spec7_g cfg sp m.
 Proof. intros H w. left. apply H. Qed.
-Lemma spec7_bind_l {A B} cfg sp (m : M A) (f : A -> M B) :
-  pres m -> (forall a, spec7 cfg sp (f a)) -> spec7 cfg sp (bind m f).
+Lemma spec7_bind_l_g {A B} cfg sp (m : M A) (f : A -> M B) :
+  pres m -> (forall a, spec7_g cfg sp (f a)) -> spec7_g cfg sp (bind m f).
 Proof.
   intros Hm Hf w. unfold bind. specialize (Hm w). destruct (m w) as [[a|e|] w1]; cbn in *; try solve [left; exact Hm].
-  eapply eff7_pre; [exact Hm | apply Hf].
+  eapply eff7_pre_g; [exact Hm | apply Hf].
 Qed.
-Lemma spec7_bind_r {A B} cfg sp (m : M A) (f : A -> M B) :
-  spec7 cfg sp m -> (forall a, pres (f a)) -> spec7 cfg sp (bind m f).
+Lemma spec7_bind_r_g {A B} cfg sp (m : M A) (f : A -> M B) :
+  spec7_g cfg sp m -> (forall a, pres (f a)) -> spec7_g cfg sp (bind m f).
 Proof.
   intros Hm Hf w. unfold bind. specialize (Hm w). destruct (m w) as [[a|e|] w1]; cbn in *; try exact Hm.
-  eapply eff7_post; [exact Hm | apply Hf].
+  eapply eff7_post_g; [exact Hm | apply Hf].
 Qed.
-Lemma spec7_catch {A} cfg sp (m : M A) : spec7 cfg sp m -> spec7 cfg sp (catch m).
+Lemma spec7_catch_g {A} cfg sp (m : M A) : spec7_g cfg sp m -> spec7_g cfg sp (catch m).
 Proof. intros Hm w. unfold catch. specialize (Hm w). destruct (m w) as [[a|e|] w1]; cbn in *; exact Hm. Qed.
-Lemma spec7_with_lock {A} pl cfg sp (body : M A) : spec7 cfg sp body -> spec7 cfg sp (with_lock pl body).
+Lemma spec7_with_lock_g {A} cfg sp (body : M A) : spec7_g cfg sp body -> spec7_g cfg sp (with_lock pl body).
 Proof.
   intros HB. unfold with_lock.
-  apply spec7_bind_l; [apply pres_lock|]. intros _.
-  apply spec7_bind_r; [apply spec7_catch, HB|]. intros x.
+  apply spec7_bind_l_g; [apply pres_lock|]. intros _.
+  apply spec7_bind_r_g; [apply spec7_catch_g, HB|]. intros x.
   apply pres_bind; [apply pres_catch, pres_unlock|]. intros _.
   destruct x; apply pres_ro; [apply ro_ret | apply ro_fail].
 Qed.
 
 (** the tail shared by obtain and renew: try the issuers, save what the first one returns *)
-Lemma tail_effect pl cfg sp orc order k w0 w :
+Lemma tail_effect_g cfg sp orc order k w0 w :
   keeps w0 (w_core w) -> key_origin cfg sp w0 k ->
-  eff7 cfg sp w0 (w_core (snd ((ic <- try_issuers orc order k (s_id sp) ;;
+  eff7_g cfg sp w0 (w_core (snd ((ic <- try_issuers orc order k (s_id sp) ;;
                                 save pl (fst ic) (s_save sp) k (snd ic) [s_id sp]) w))).
 Proof.
   intros HK HO. rewrite bind_run.
@@ -310,13 +335,13 @@ Proof.
     try solve [left; eapply keeps_trans; eauto].
   destruct (HR i x eq_refl) as (_ & Hp & Hs).
   assert (HK1 : keeps w0 (w_core w1)) by (eapply keeps_trans; eauto).
-  destruct (save_effect pl i (s_save sp) k x [s_id sp] w1) as (A & _ & B & C & [D|D]).
+  destruct (save_T i (s_save sp) k x [s_id sp] w1) as (A & _ & B & C & [D|D]).
   - left. destruct HK1 as (E1 & E2 & E3 & E4). unfold keeps. repeat split; try congruence; lia.
-  - right. destruct HK1 as (E1 & E2 & E3 & E4). unfold one_torn. repeat split; try congruence; try lia.
+  - right. destruct HK1 as (E1 & E2 & E3 & E4). unfold one_torn_g. repeat split; try congruence; try lia.
     exists i, k, x. rewrite <- E1. auto.
 Qed.
 
-Lemma obtain_body_effect pl cfg sp orc : spec7 cfg sp (obtain_body pl cfg sp orc).
+Lemma obtain_body_effect_g cfg sp orc : spec7_g cfg sp (obtain_body pl cfg sp orc).
 Proof.
   intros w. unfold obtain_body. rewrite bind_run.
   generalize (ro_has_any pl (issuers cfg) (s_pre sp) w).
@@ -333,28 +358,28 @@ Proof.
     assert (Est : w_st w1 = k_st (w_core w)) by (unfold w_st; rewrite HR1; reflexivity).
     destruct kr as [[i0 k0]|].
     + rewrite bind_run. cbn [ret fst snd].
-      apply tail_effect; [apply keeps_eq; exact E2|].
+      apply tail_effect_g; [apply keeps_eq; exact E2|].
       right. split; [exact ER|]. exists i0, (s_pre sp). rewrite <- Est. exact HRes.
     + rewrite bind_run. generalize (pres_gen_key w2), (gen_key_res w2).
       destruct (gen_key w2) as [[k|e|] w3]; cbn [fst snd]; intros HP HG;
         try solve [left; rewrite E2 in HP; exact HP].
-      apply tail_effect; [rewrite <- E2; exact HP|].
+      apply tail_effect_g; [rewrite <- E2; exact HP|].
       left. rewrite (HG k eq_refl), E2. split; [lia|]. intros _ j Hj. rewrite <- Est. apply HRes, Hj.
   - cbn [ret]. rewrite bind_run. generalize (pres_gen_key w1), (gen_key_res w1).
     destruct (gen_key w1) as [[k|e|] w3]; cbn [fst snd]; intros HP HG;
       try solve [left; rewrite HR1 in HP; exact HP].
-    apply tail_effect; [rewrite <- HR1; exact HP|].
+    apply tail_effect_g; [rewrite <- HR1; exact HP|].
     left. rewrite (HG k eq_refl), HR1. split; [lia | congruence].
 Qed.
-Lemma obtain_effect pl cfg sp orc : spec7 cfg sp (obtain pl cfg sp orc).
+Lemma obtain_effect_g cfg sp orc : spec7_g cfg sp (obtain pl cfg sp orc).
 Proof.
-  unfold obtain. apply spec7_bind_l; [apply pres_ro, ro_has_any|]. intros pre.
-  destruct pre; [apply spec7_pres, pres_ro, ro_ret|].
-  apply spec7_bind_l; [apply pres_ro, ro_check_storage|]. intros _.
-  apply spec7_with_lock, obtain_body_effect.
+  unfold obtain. apply spec7_bind_l_g; [apply pres_ro, ro_has_any|]. intros pre.
+  destruct pre; [apply spec7_pres_g, pres_ro, ro_ret|].
+  apply spec7_bind_l_g; [apply pres_ro, ro_check_storage|]. intros _.
+  apply spec7_with_lock_g, obtain_body_effect_g.
 Qed.
 
-Lemma renew_body_effect pl cfg sp orc f : spec7 cfg sp (renew_body pl cfg sp orc f).
+Lemma renew_body_effect_g cfg sp orc f : spec7_g cfg sp (renew_body pl cfg sp orc f).
 Proof.
   intros w. unfold renew_body. rewrite bind_run.
   generalize (ro_load_any pl cfg (s_load sp) w), (load_any_res pl cfg (s_load sp) w).
@@ -363,35 +388,23 @@ Proof.
   destruct (HRes b eq_refl) as (j & Hj & Hb). destruct b as [[[j0 k0] c0] m0].
   destruct (negb (is_due c0) && negb f); [left; apply keeps_eq; exact HR1|].
   rewrite bind_run. destruct (reuse cfg) eqn:ER.
-  - cbn [ret fst snd]. apply tail_effect; [apply keeps_eq; exact HR1|].
+  - cbn [ret fst snd]. apply tail_effect_g; [apply keeps_eq; exact HR1|].
     right. split; [exact ER|]. exists j, (s_load sp). split; [exact Hj|].
     apply bundle_at_inv in Hb. apply Hb.
   - generalize (pres_gen_key w1), (gen_key_res w1).
     destruct (gen_key w1) as [[k|e|] w3]; cbn [fst snd]; intros HP HG;
       try solve [left; rewrite HR1 in HP; exact HP].
-    apply tail_effect; [rewrite <- HR1; exact HP|].
+    apply tail_effect_g; [rewrite <- HR1; exact HP|].
     left. rewrite (HG k eq_refl), HR1. split; [lia | congruence].
 Qed.
-Lemma renew_effect pl cfg sp orc f : spec7 cfg sp (renew pl cfg sp orc f).
+Lemma renew_effect_g cfg sp orc f : spec7_g cfg sp (renew pl cfg sp orc f).
 Proof.
-  unfold renew. apply spec7_bind_l; [apply pres_ro, ro_check_storage|]. intros _.
-  apply spec7_with_lock, renew_body_effect.
+  unfold renew. apply spec7_bind_l_g; [apply pres_ro, ro_check_storage|]. intros _.
+  apply spec7_with_lock_g, renew_body_effect_g.
 Qed.
 
-(** without revocations in the environment no load ever reports one, whatever the plan *)
-Lemma load_managed_rev_none pl cfg d w mc :
-  k_ocsp (w_core w) = [] -> fst (load_managed pl cfg d w) = Ok mc -> m_rev mc = None.
-Proof.
-  intros HO. unfold load_managed. rewrite bind_run. generalize (ro_load_any pl cfg d w).
-  destruct (load_any pl cfg d w) as [[[[[i k] x] m]|e|] w1]; cbn [fst snd]; intros HR; try discriminate.
-  destruct (negb (N.eqb (c_pub x) k)); [cbn; discriminate|].
-  rewrite bind_run. unfold catch, load_ocsp, prim. rewrite HR, HO. cbn [assoc_ser].
-  destruct (p_fail pl (w_cnt w1)); destruct (crash_at pl (w_cnt w1)); cbn; try discriminate;
-    intros [= <-]; reflexivity.
-Qed.
-
-Lemma manage_effect pl cfg sp orc w :
-  k_ocsp (w_core w) = [] -> eff7 cfg sp (w_core w) (w_core (snd (manage pl cfg sp orc w))).
+Lemma manage_effect_g cfg sp orc w :
+  k_ocsp (w_core w) = [] -> eff7_g cfg sp (w_core w) (w_core (snd (manage pl cfg sp orc w))).
 Proof.
   intros HO. unfold manage. rewrite bind_run. unfold catch.
   generalize (ro_load_managed pl cfg (s_load sp) w), (load_managed_rev_none pl cfg (s_load sp) w).
@@ -399,25 +412,34 @@ Proof.
     try solve [left; apply keeps_eq; exact HR].
   - rewrite (HRev mc HO eq_refl). rewrite andb_false_r.
     destruct (is_due (m_c mc)); [|left; apply keeps_eq; exact HR].
-    rewrite <- HR. apply (spec7_bind_r cfg sp (renew pl cfg sp orc false)); [apply renew_effect|].
+    rewrite <- HR. apply (spec7_bind_r_g cfg sp (renew pl cfg sp orc false)); [apply renew_effect_g|].
     intros _. apply pres_ro, ro_load_managed.
   - destruct e; try solve [left; apply keeps_eq; exact HR].
-    rewrite <- HR. apply (spec7_bind_r cfg sp (obtain pl cfg sp orc)); [apply obtain_effect|].
+    rewrite <- HR. apply (spec7_bind_r_g cfg sp (obtain pl cfg sp orc)); [apply obtain_effect_g|].
     intros _. apply pres_ro, ro_load_managed.
 Qed.
 
-(** faulted_effect: every operation of the property's fault experiments, under every plan *)
-Definition is_op7 (h : hop) : bool := match h with HObtain | HRenew _ | HManage => true | _ => false end.
+(** faulted_effect_g: every operation of the property's fault experiments, under every plan *)
+Lemma faulted_effect_g cfg sp orc h w :
+  is_op7 h = true -> k_ocsp (w_core w) = [] ->
+  eff7_g cfg sp (w_core w) (w_core (snd (run_hop pl cfg sp orc h w))).
+Proof.
+  intros Hop HO. destruct h as [|f| |i kc|]; try discriminate; cbn [run_hop].
+  - apply (spec7_bind_r_g cfg sp (obtain pl cfg sp orc)); [apply obtain_effect_g | intros; apply pres_ro, ro_ret].
+  - apply (spec7_bind_r_g cfg sp (renew pl cfg sp orc f)); [apply renew_effect_g | intros; apply pres_ro, ro_ret].
+  - rewrite bind_run. generalize (manage_effect_g cfg sp orc w HO).
+    destruct (manage pl cfg sp orc w) as [[mc|e|] w1]; cbn [fst snd]; auto.
+Qed.
+
+End Gen.
+
+(** ** every plan: the seven torn states *)
+Definition one_torn := one_torn_g torn.
+Definition eff7 := eff7_g torn.
 Lemma faulted_effect pl cfg sp orc h w :
   is_op7 h = true -> k_ocsp (w_core w) = [] ->
   eff7 cfg sp (w_core w) (w_core (snd (run_hop pl cfg sp orc h w))).
-Proof.
-  intros Hop HO. destruct h as [|f| |i kc|]; try discriminate; cbn [run_hop].
-  - apply (spec7_bind_r cfg sp (obtain pl cfg sp orc)); [apply obtain_effect | intros; apply pres_ro, ro_ret].
-  - apply (spec7_bind_r cfg sp (renew pl cfg sp orc f)); [apply renew_effect | intros; apply pres_ro, ro_ret].
-  - rewrite bind_run. generalize (manage_effect pl cfg sp orc w HO).
-    destruct (manage pl cfg sp orc w) as [[mc|e|] w1]; cbn [fst snd]; auto.
-Qed.
+Proof. apply (faulted_effect_g pl torn (save_effect pl)). Qed.
 
 (** * the only way to get stuck *)
 Lemma same_dir_refl i d : same_dir i d i d = true.
@@ -515,6 +537,93 @@ Proof.
   rewrite (HN i Hi) in HC. discriminate.
 Qed.
 
+(** * storage errors without process death: calm plans never get stuck
+    A plan is calm when the process does not die and no two consecutive Storage calls fail: every
+    single failing call (fault kind (b) of the property, for every index k) is calm, and so is any
+    set of failing calls without two neighbours. Under a calm plan the rollback Delete that
+    directly follows a failed Store always succeeds, so the state "new key next to the old
+    certificate" cannot be left behind. *)
+Definition calm (pl : plan) : Prop :=
+  p_crash pl = None /\ forall n, p_fail pl n = true -> p_fail pl (S n) = false.
+Definition single_error (k : nat) : plan := {| p_fail := Nat.eqb k; p_crash := None |}.
+Lemma calm_single_error k : calm (single_error k).
+Proof.
+  split; [reflexivity|]. cbn. intros n H. apply Nat.eqb_eq in H. subst. apply Nat.eqb_neq. lia.
+Qed.
+Lemma calm_no_faults : calm no_faults.
+Proof. split; [reflexivity | cbn; discriminate]. Qed.
+
+Inductive torn_safe (st : storage) (i : nat) (d : N) (k : keyid) (x : cert) (m : list N) : storage -> Prop :=
+| ts_kd : torn_safe st i d k x m (sdel (sput st (i, d, FKey) (VKey k)) (i, d, FKey))
+| ts_kc : torn_safe st i d k x m (sput (sput st (i, d, FKey) (VKey k)) (i, d, FCrt) (VCrt x))
+| ts_kc_dc : torn_safe st i d k x m (sdel (sput (sput st (i, d, FKey) (VKey k)) (i, d, FCrt) (VCrt x)) (i, d, FCrt))
+| ts_kc_dc_dk : torn_safe st i d k x m
+    (sdel (sdel (sput (sput st (i, d, FKey) (VKey k)) (i, d, FCrt) (VCrt x)) (i, d, FCrt)) (i, d, FKey))
+| ts_kc_dk : torn_safe st i d k x m (sdel (sput (sput st (i, d, FKey) (VKey k)) (i, d, FCrt) (VCrt x)) (i, d, FKey))
+| ts_kcm : torn_safe st i d k x m (put_bundle st i d k x m).
+Lemma torn_safe_torn st i d k x m st' : torn_safe st i d k x m st' -> torn st i d k x m st'.
+Proof. intros H; destruct H; constructor. Qed.
+
+Lemma save_effect_calm pl : calm pl -> forall i d k x m w,
+  let c := w_core w in let c' := w_core (snd (save pl i d k x m w)) in
+  k_ocsp c' = k_ocsp c /\ k_locked c' = k_locked c /\ k_nkey c' = k_nkey c /\ k_nser c' = k_nser c /\
+  (k_st c' = k_st c \/ torn_safe (k_st c) i d k x m (k_st c')).
+Proof.
+  intros [HC HN] i d k x m w. cbv zeta.
+  unfold save, store, delete, prim, bind, catch, ret, fail, crash_at. rewrite HC. cbn.
+  repeat match goal with
+         | H : p_fail pl ?n = true |- context [p_fail pl (S ?n)] => rewrite (HN n H); cbn
+         | |- context [if p_fail pl ?n then _ else _] => destruct (p_fail pl n) eqn:?; cbn
+         end;
+    repeat split; try reflexivity; first [left; reflexivity | right; constructor].
+Qed.
+
+Definition eff7_calm := eff7_g torn_safe.
+Lemma faulted_effect_calm pl cfg sp orc h w :
+  calm pl -> is_op7 h = true -> k_ocsp (w_core w) = [] ->
+  eff7_calm cfg sp (w_core w) (w_core (snd (run_hop pl cfg sp orc h w))).
+Proof. intros HC. apply (faulted_effect_g pl torn_safe (save_effect_calm pl HC)). Qed.
+
+(** in the directory of a save interrupted under a calm plan, a complete bundle is the new pair *)
+Lemma torn_safe_here st i d k x m st' :
+  torn_safe st i d k x m st' ->
+  forall k' x' m', dir_key st' i d = Some k' -> dir_crt st' i d = Some x' -> dir_meta st' i d = Some m' ->
+  k' = k /\ x' = x.
+Proof.
+  intros HT k' x' m'. destruct HT; here; intros HK HC HM; try discriminate;
+    injection HK as <-; injection HC as <-; auto.
+Qed.
+
+Lemma never_stuck_calm cfg sp c0 c1 :
+  (forall i b, In i (issuers cfg) -> bundle_at (k_st c0) i (s_save sp) = Some b -> matching b = true) ->
+  eff7_calm cfg sp c0 c1 -> stuck (k_st c1) cfg (s_save sp) = false.
+Proof.
+  intros HG HE. apply not_true_is_false. intros HS. unfold stuck in HS.
+  destruct (newest_bundle (k_st c1) cfg (s_save sp)) as [[[[j kj] xj] mj]|] eqn:EN; [|discriminate].
+  cbn in HS. apply negb_true_iff, N.eqb_neq in HS.
+  destruct (newest_bundle_inv _ _ _ _ _ _ _ EN) as (Hj & HK & HC & HM).
+  assert (Hold : dir_key (k_st c0) j (s_save sp) = Some kj -> dir_crt (k_st c0) j (s_save sp) = Some xj ->
+                 dir_meta (k_st c0) j (s_save sp) = Some mj -> False).
+  { intros A B C.
+    assert (Hb : bundle_at (k_st c0) j (s_save sp) = Some (j, kj, xj, mj)) by (unfold bundle_at; rewrite A, B, C; reflexivity).
+    specialize (HG _ _ Hj Hb). cbn in HG. apply N.eqb_eq in HG. contradiction. }
+  destruct HE as [(E & _)|(_ & _ & _ & i & k & x & Hp & Hs & Ho & HT)].
+  - rewrite E in HK, HC, HM. auto.
+  - destruct (same_dir i (s_save sp) j (s_save sp)) eqn:ED.
+    + apply same_dir_true in ED. destruct ED as [-> _].
+      destruct (torn_safe_here _ _ _ _ _ _ _ HT _ _ _ HK HC HM) as [-> ->]. contradiction.
+    + apply torn_safe_torn in HT. unfold dir_key, dir_crt, dir_meta in HK, HC, HM.
+      rewrite (torn_other _ _ _ _ _ _ _ _ _ FKey HT ED) in HK.
+      rewrite (torn_other _ _ _ _ _ _ _ _ _ FCrt HT ED) in HC.
+      rewrite (torn_other _ _ _ _ _ _ _ _ _ FMeta HT ED) in HM. auto.
+Qed.
+
+Lemma eff7_calm_eff7 cfg sp c0 c1 : eff7_calm cfg sp c0 c1 -> eff7 cfg sp c0 c1.
+Proof.
+  intros [H|(A & B & C & i & k & x & Hp & Hs & Ho & HT)]; [left; exact H|].
+  right. repeat split; auto. exists i, k, x. repeat split; auto. apply torn_safe_torn, HT.
+Qed.
+
 (** typedness and subject fields survive every torn save *)
 Lemma torn_typed st i d k x m st' : typed st -> torn st i d k x m st' -> typed st'.
 Proof.
@@ -560,6 +669,28 @@ Proof.
   exists mc, c'. split; [|exact HOK].
   generalize (evals_manage cfg sp orc_r (set_locked (w_core w1) false) (r_typed _ _ _ R) (r_unlocked _ _ _ R)).
   rewrite HM. auto.
+Qed.
+
+
+(** storage errors (calm plans): never stuck, hence always recoverable — no exception *)
+Lemma calm_never_stuck pl cfg sp orc h w0 :
+  calm pl -> Inv6 cfg sp (w_core w0) -> k_ocsp (w_core w0) = [] -> is_op7 h = true ->
+  stuck (w_st (snd (run_hop pl cfg sp orc h w0))) cfg (s_save sp) = false.
+Proof.
+  intros HC I HO Hop. apply (never_stuck_calm cfg sp (w_core w0)).
+  - intros i [[[j k] x] m] Hi Hb. destruct (inv_bundle_good _ _ _ _ _ _ _ _ _ I Hb) as (_ & _ & Hp & _).
+    cbn. apply N.eqb_eq, Hp.
+  - apply faulted_effect_calm; assumption.
+Qed.
+Lemma recoverable_after_storage_errors pl cfg sp orc h orc_r w0 :
+  calm pl -> Inv6 cfg sp (w_core w0) -> k_ocsp (w_core w0) = [] -> canonical sp -> (1 <= n_iss cfg)%nat ->
+  is_op7 h = true ->
+  let w1 := snd (run_hop pl cfg sp orc h w0) in
+  all_up cfg orc_r (w_st w1) (s_save sp) ->
+  exists mc c', evals (manage no_faults cfg sp orc_r) (w_core (break_lock w1)) (Ok mc) c' /\ served_ok cfg sp mc c'.
+Proof.
+  intros HC I HO HCan Hn Hop w1 HU. apply (recoverable_after_fault pl cfg sp orc h orc_r w0); auto.
+  apply calm_never_stuck; assumption.
 Qed.
 
 (** helpers to establish the hypotheses on concrete storages *)
